@@ -114,6 +114,11 @@ def _two_dev_cfg(rng, delay):
         body = pmgen.script_text(k)
         first, rest = body.split("\n", 1)
         d0.bodies[k] = first + "\n\t\tdelay %s\n" % delay + rest
+    # ... and whose `status` script sleeps between the expect that captures ($1, $2) and the setplugstate that uses them: passes of
+    # the select loop happen in between (whatever another device does in them must not disturb d0's captured groups)
+    sb = pmgen.script_text("status")
+    head, tail = sb.split("\n\t\t\tsetplugstate", 1) if "\n\t\t\tsetplugstate" in sb else sb.split("\n\t\tsetplugstate", 1)
+    d0.bodies["status"] = head + "\n\t\tdelay 0.3\n\t\tsetplugstate" + tail
     d1 = pmgen.Dev("d1", ["login", "on", "off", "status"], hardwired=["p1"], transport="tcp", timeout=rng.choice([3.0, 5.0]))
     cfg.devs += [d0, d1]
     cfg.node_lines += [("n0,n1", "d0", "p1,p2"), ("n2", "d1", "p1")]
@@ -141,17 +146,22 @@ def pmsim_directed(ctx, V, exe, n):
         rng = random.Random(ctx.seed * 104729 + i)
         delay = rng.choice(["0.7", "1.5", "2.5", "3.2"])
         cfg = _two_dev_cfg(rng, delay)
-        kind = refusals[i % 3]
+        kind = rkind = refusals[i % 3]
         reqs = [rng.choice(["on n0", "off n1", "on n[0-1]", "off n0"]) for _ in range(rng.randint(1, 3))]
         S = [("connect",), ("wait", 0)]
         if rng.random() < 0.5: S += [("sleep", rng.choice([300000, 1500000, 2600000]))]
         for r in reqs: S += [("send", 0, (r + "\r\n").encode()), ("wait", 0)]
         S += [("send", 0, b"status n[0-1]\r\n"), ("wait", 0)]
         sa = pmcheck.Scenario(cfg, list(S), dict(style="c05-delay", sick="d1", kind="healthy"))
-        sb = pmcheck.Scenario(cfg, [("raw", ["PLAN " + kind] * 80)] + list(S), dict(style="c05-delay", sick="d1", kind=kind), env={"PMSIM_PLAN": kind})
-        M = [("raw", ["PLAN " + kind] * 80), ("connect",), ("wait", 0), ("send", 0, rng.choice([b"on n[0-2]\r\n", b"off n0,n2\r\n", b"on n2,n1\r\n"])), ("wait", 0),
+        if i % 4 == 3:
+            # d1 accepts the connection and then says nothing: it sits in its login expect, which is re-run in every pass
+            kind = "silent-login"
+            sb = pmcheck.Scenario(cfg, [("devmode", "d1", "silent")] + list(S), dict(style="c05-delay", sick="d1", kind=kind))
+        else:
+            sb = pmcheck.Scenario(cfg, [("raw", ["PLAN " + kind] * 80)] + list(S), dict(style="c05-delay", sick="d1", kind=kind), env={"PMSIM_PLAN": kind})
+        M = [("raw", ["PLAN " + rkind] * 80), ("connect",), ("wait", 0), ("send", 0, rng.choice([b"on n[0-2]\r\n", b"off n0,n2\r\n", b"on n2,n1\r\n"])), ("wait", 0),
              ("send", 0, b"status n[0-2]\r\n"), ("wait", 0)]
-        sm = pmcheck.Scenario(cfg, M, dict(style="c05-mixed", sick="d1", kind=kind), env={"PMSIM_PLAN": kind})
+        sm = pmcheck.Scenario(cfg, M, dict(style="c05-mixed", sick="d1", kind=rkind), env={"PMSIM_PLAN": rkind})
         jobs.append((i, sa, sb, sm))
     from concurrent.futures import ThreadPoolExecutor
 
@@ -168,7 +178,7 @@ def pmsim_directed(ctx, V, exe, n):
             V.violation(bad[0], bad[1], w, bad[2])
         if ra.client_out.get(0) != rb.client_out.get(0):
             V.violation("interference", "client-stream", dict(w, healthy=ra.client_out.get(0, b"").decode("latin-1")[-500:], with_sick=rb.client_out.get(0, b"").decode("latin-1")[-500:]),
-                        "the client only names nodes of d0, yet its replies differ when d1 refuses every connect")
+                        "the client only names nodes of d0, yet its replies differ when d1 misbehaves (%s)" % sb.tags.get("kind", "?"))
         else:
             ta, tb = _reply_times(ra, 0), _reply_times(rb, 0)
             dmax = max([abs(x - y) for x, y in zip(ta, tb)] + [0])
